@@ -95,6 +95,7 @@ func runSessionOnce(c SessionCase, st *Stats, h SessionHooks) error {
 	defer conn.Close()
 	m := NewModel(root, c.AllowWrite)
 	m.St = st
+	m.MaskATime = c.Transport == "pipelined"
 	if h.Prepare != nil {
 		h.Prepare(root, m)
 	}
